@@ -55,3 +55,45 @@ def run_main(argv):
         return e.code if isinstance(e.code, int) else 2
     except BaseException as e:  # noqa
         return "leak:" + type(e).__name__
+
+
+ENV_IGNORE = ("COLUMNS", "LINES", "TZ", "LANG", "LANGUAGE", "TMPDIR", "TEMP", "TMP", "HOME", "TERM", "NO_COLOR", "FORCE_COLOR")
+
+
+def run_main_recording(argv):
+    """run_main plus the names of the environment variables that were looked up while it ran"""
+    import os
+    names = set()
+    cls = type(os.environ)
+    original = cls.__getitem__
+
+    def recording(self, key):
+        names.add(key if isinstance(key, str) else repr(key))
+        return original(self, key)
+
+    cls.__getitem__ = recording
+    try:
+        code = run_main(argv)
+    finally:
+        cls.__getitem__ = original
+    return code, sorted(n for n in names if n not in ENV_IGNORE and not n.startswith(("PYTHON", "LC_")))
+
+
+def environment_dependence(argv, code, names):
+    """the verdict of a command line is decided by its arguments and files: looked-up environment variables set to a few
+    values must not change the exit code; returns a message or None"""
+    import os
+    for name in names:
+        had = os.environ.get(name)
+        try:
+            for value in ("0", "1", "3", "-1", "x"):
+                os.environ[name] = value
+                other = run_main(argv)
+                if other != code:
+                    return "with the environment variable %s=%s the exit code is %r instead of %r" % (name, value, other, code)
+        finally:
+            if had is None:
+                os.environ.pop(name, None)
+            else:
+                os.environ[name] = had
+    return None
